@@ -143,6 +143,11 @@ Definition v_resolved (via_histogram : bool) (c : cols) (rv : bool) (lo hi : opt
   | CNum k', OBinned (Err e) => v_num c lo hi k' merge (Err e)
   | CMode m, OBinned o => v_binned c rv lo hi m o
   | CMode m, ONum (Err e) => v_binned c rv lo hi m (Err e)
-  | CNone, OBinned (Err e) | CNone, ONum (Err e) => if err_eqb e EValue then 0 else 1
+  | CNone, OBinned (Err e) | CNone, ONum (Err e) =>
+      (* the error of _get_minmax_and_indices comes first, then "Send binsize or nbin or nperbin" *)
+      match binner_api true via_histogram c rv lo hi bs nb k merge with
+      | Err e' => if err_eqb e e' then 0 else 1
+      | Ok _ => 1
+      end
   | _, _ => 3
   end.
